@@ -2050,9 +2050,8 @@ func marshalTuple(info TypeInfo, value interface{}) ([]byte, error) {
 				return nil, err
 			}
 
-			n := len(data)
-			buf = appendInt(buf, int32(n))
-			buf = append(buf, data...)
+			// a null element (a nil pointer behind the interface) is length -1, not an empty value
+			buf = appendBytes(buf, data)
 		}
 
 		return buf, nil
